@@ -69,6 +69,7 @@ theorem text_size_le (m : TextMode) (hm : m.sizeStrict = true) (c : Ctx) (lines 
 theorem field_size_le (c : Ctx) (chars : List Cell) :
     ∃ s, drawField exact c chars = .ok s ∧ s.w ≤ c.maxW ∧ s.h ≤ c.maxH := by
   unfold drawField
+  rw [surface_field]
   split
   · refine ⟨emptySurface, rfl, ?_, ?_⟩ <;> exact UInt16.le_iff_toNat_le.2 (Nat.zero_le _)
   · rename_i hz
@@ -108,7 +109,7 @@ theorem dynAround_dims (a : Arith) (cursor : Bool) (gap : Int) (c : Ctx) (chs : 
     (dynAround a cursor gap c chs).buf = (newSurface a c.maxW c.maxH).buf := by
   have h := dynPlace_dims (Int.ofNat (dynOff cursor).toNat) gap chs 0 (newSurface a c.maxW c.maxH)
   have d := newSurface_dims a c.maxW c.maxH
-  simp only [dynAround]
+  simp only [dynAround, surface_dynamic]
   generalize dynPlace (Int.ofNat (dynOff cursor).toNat) gap chs 0 (newSurface a c.maxW c.maxH) = p at h ⊢
   cases p with
   | mk w hh b k =>
